@@ -158,15 +158,24 @@ func (ms *Modules) resolveIdentities() []error {
 		// Hoist up all identities in our included submodules.
 		// We could just do a range on ms.SubModules, but that
 		// might process a submodule that no module included.
-		for _, in := range mod.Include {
-			if in.Module == nil {
-				continue
-			}
-			for _, i := range in.Module.Identities() {
-				keyName, r := newResolvedIdentity(in.Module, i)
-				ms.typeDict.identities.dict[keyName] = *r
+		// A submodule may in turn include submodules that the module
+		// itself does not include.
+		seen := map[*Module]bool{}
+		var hoist func(m *Module)
+		hoist = func(m *Module) {
+			for _, in := range m.Include {
+				if in.Module == nil || seen[in.Module] {
+					continue
+				}
+				seen[in.Module] = true
+				for _, i := range in.Module.Identities() {
+					keyName, r := newResolvedIdentity(in.Module, i)
+					ms.typeDict.identities.dict[keyName] = *r
+				}
+				hoist(in.Module)
 			}
 		}
+		hoist(mod)
 	}
 
 	// Now, we want to create for all identities a view of all of their children.
